@@ -122,6 +122,12 @@ def oracle(ck, extended):
         Lc = 2 * rng.randint(1, 5); Lr = 2 * rng.randint(1, 5)
         m = rng.choice(gen.MODES5); J = rng.randint(1, 3)
         col = tuple(gen.int_filter(rng, Lc) for _ in range(4)); row = tuple(gen.int_filter(rng, Lr) for _ in range(4))
+        if it % 5 == 0:
+            # the two axes SHARE some of their four filters (equal values, separate arrays) and differ in the others: a
+            # distinct row wavelet is distinct even when its low-pass (or high-pass) equals the column one
+            Lr = Lc
+            share = rng.choice([(0, 2), (1, 3), (0,), (1,), (0, 1, 2)])
+            row = tuple(col[k].copy() if k in share else gen.int_filter(rng, Lc) for k in range(4))
         x = gen.int_tensor(rng, (rng.randint(1, 2), rng.randint(1, 2), gen.pick_len(rng, Lc, 18), gen.pick_len(rng, Lr, 18)))
         rt.guard(ck, oracle_axes, ck, m, J, col, row, x)
     names = ['db1', 'db2', 'db3', 'sym4', 'coif1', 'bior1.3', 'bior2.2', 'bior3.1', 'rbio2.4', 'db5', 'bior4.4', 'dmey'] if not q else ['db1', 'db2', 'db3', 'sym4', 'bior1.3', 'bior2.2']
